@@ -159,7 +159,21 @@ def mk_cmp(op, l, r):
                 return ('not', a[2][0]) if op == 'Eq' else ('truth', a[2][0])
     if op in CMP_FLIP and (op in ('Gt', 'GtE') or (op in ('Eq', 'NotEq') and _key(l) > _key(r))):
         op, l, r = CMP_FLIP[op], r, l
+    if op == 'Lt':
+        # a length is an integer:  len(x) < k  is  len(x) <= k-1 ;  k < len(x)  is  k+1 <= len(x)
+        if _is_len(l) and _is_intc(r):
+            op, r = 'LtE', ('num', r[1] - 1)
+        elif _is_len(r) and _is_intc(l):
+            op, l = 'LtE', ('num', l[1] + 1)
     return ('cmp', op, l, r)
+
+
+def _is_len(a):
+    return isinstance(a, tuple) and len(a) == 4 and a[0] == 'call' and a[1] == 'len' and len(a[2]) == 1 and not a[3]
+
+
+def _is_intc(a):
+    return isinstance(a, tuple) and len(a) == 2 and a[0] == 'num' and type(a[1]) is int
 
 
 _NEG_CMP = {'Eq': 'NotEq', 'NotEq': 'Eq', 'Is': 'IsNot', 'IsNot': 'Is', 'In': 'NotIn', 'NotIn': 'In'}
@@ -174,6 +188,8 @@ def negate(v):
             return v[1]
         if v[0] == 'cmp' and v[1] in _NEG_CMP:
             return mk_cmp(_NEG_CMP[v[1]], v[2], v[3])
+        if v[0] == 'cmp' and v[1] == 'LtE' and ((_is_len(v[2]) and _is_intc(v[3])) or (_is_len(v[3]) and _is_intc(v[2]))):
+            return mk_cmp('Lt', v[3], v[2])      # integers: the complement is exact
         if v[0] == 'truth':
             return ('not', v[1])
     return ('not', v)
@@ -383,7 +399,10 @@ class Normalizer(object):
         params = None
         if d and e.args and not any(isinstance(a, ast.Starred) for a in e.args):
             last = d.split('.')[-1]
-            if last in REPO_SIGS and (('.' not in d) or d.split('.')[0] in ('FlowCal', 'self', 'cls') or d.split('.')[0] not in MODULE_ROOTS):
+            last2 = '.'.join(d.split('.')[-2:])
+            if d.split('.')[0] == 'FlowCal' and len(d.split('.')) == 3 and last2 in REPO_SIGS:
+                params = REPO_SIGS[last2]
+            elif last in REPO_SIGS and (('.' not in d) or d.split('.')[0] in ('FlowCal', 'self', 'cls') or d.split('.')[0] not in MODULE_ROOTS):
                 params = REPO_SIGS[last]
             elif d.split('.')[0] in EXT_ROOTS and d.split('.')[0] not in self.env:
                 params = _ext_params(d)
